@@ -35,6 +35,16 @@ Section C10.
     (exists t, l = x :: t) /\ NoDup l /\ (forall y, In y l <-> reach (step teqb g) x y).
   Proof. exact (bfs_correct teqb teqb_spec). Qed.
 
+  (* ... and the search returns (the model's fuel |V|+2 is never exhausted, no unwrap fails)
+     from every node of every graph state whose adjacency query is total and closed over the
+     node list - which the executable test step_total_b decides (evaluated on every case) *)
+  Theorem C10_bfs_total : forall (g : gstate) x,
+    step_total_b teqb g = true -> In x (g_nodes g) ->
+    exists l, breadth_first_search teqb g x = Ok l.
+  Proof.
+    intros g x H. exact (bfs_total teqb teqb_spec g x (step_total_sound teqb teqb_spec g H)).
+  Qed.
+
   (* connected_components IS the partition of the node list into the classes of reachability
      along the adjacency the search reads, for every undirected graph state whose adjacency
      query is symmetric and closed over the node list ... *)
